@@ -172,3 +172,99 @@ def run_oracles(prop, tier, report, configs=None):
         "oracle_violations_total": nviol,
     }
     return cov
+
+
+# ---------------------------------------------------------------------------------------------------------------
+# C09: fault enumeration.  For every scenario, the k-th throwing-capable event (element construction / copy /
+# assignment, allocator call) throws, for every k until the operation completes.
+POST = ["clear 0", "push_back 0 v9", "push_back 0 v8", "cmp 0 0"]
+
+
+def run_faults(tier, report, configs=None):
+    names = configs or list(vecgen.CONFIGS)
+    thorough = tier == "thorough"
+    known = C.load_known()
+    # pass 1: count the throwing-capable events of every scenario
+    scen = {}
+    jobs = []
+    for name in names:
+        cfg = Cfg(name)
+        sc = vecgen.fault_scenarios(cfg, cfg.N + (3 if thorough else 2) if cfg.flavour != "vec" else (5 if thorough else 4))
+        scen[name] = sc
+        lines = []
+        for i, (pre, op) in enumerate(sc):
+            lines.append("H c%d" % i)
+            lines += pre + [op]
+        jobs.append((name, lines))
+    res1 = vecrun.run_scripts(jobs)
+    jobs2 = []
+    index = {}
+    for name, hs, err, berr in res1:
+        if berr:
+            report.violation({"config": name, "broken": ["driver build for %s" % name], "compiler_output": berr[-4000:],
+                              "no_failing_input_found": True}, "the vector driver does not build (%s)" % name, True)
+            continue
+        lines = []
+        te_of = {}
+        for h in hs:
+            if h.steps and not h.crash:
+                te_of[int(h.hid[1:])] = h.steps[-1].te
+        for i, (pre, op) in enumerate(scen[name]):
+            te = te_of.get(i, 0)
+            for k in range(te):
+                hid = "f%d.%d" % (i, k)
+                lines.append("H " + hid)
+                lines += pre + ["!%d %s" % (k, op)] + POST
+                index[(name, hid)] = (pre, op, k)
+        jobs2.append((name, lines))
+    res2 = vecrun.run_scripts(jobs2)
+    ns = nh = 0
+    nthrows = 0
+    distinct = set()
+    samples = []
+    seen_keys = set()
+    nviol = 0
+    for name, hs, err, berr in res2:
+        cfg = Cfg(name)
+        for h in hs:
+            nh += 1
+            pre, op, k = index.get((name, h.hid), ([], "?", -1))
+            inj = [s for s in h.steps if s.op.startswith("!")]
+            if inj and inj[0].res.startswith("threw"):
+                nthrows += 1
+                distinct.add((name, op.split(" ")[0], inj[0].res, k))
+            ns += len(h.steps)
+            fs = [f for f in h.failures() if f[1] in ("C09", "CRASH", "C02", "C06", "C01", "C07")]
+            if not fs:
+                continue
+            i, p, msg = fs[0]
+            km = known_match(known, "C09", cfg, op, msg)
+            if km is not None:
+                report.known_finding("%s: %s" % (km["site"], km["failure"]))
+                continue
+            nviol += 1
+            import re as _re
+            key = (op.split(" ")[0], _re.sub(r"[0-9,\[\]-]+", "#", msg)[:50])
+            if key in seen_keys or len(seen_keys) >= 8:
+                continue
+            seen_keys.add(key)
+            script = pre + ["!%d %s" % (k, op)] + POST
+            report.violation({"config": name, "script": script, "failing_step": "!%d %s" % (k, op), "oracle": p, "observed": msg,
+                              "found_by": "fault-enumeration", "no_failing_input_found": False},
+                             "%s throw index %d in `%s` (after %s): %s" % (name, k, op, " ; ".join(pre), msg))
+        if hs and len(samples) < 3:
+            h = hs[len(hs) // 2]
+            pre, op, k = index.get((name, h.hid), ([], "?", -1))
+            samples.append({"config": name, "scenario": pre + ["!%d %s" % (k, op)], "outcome": [s.res for s in h.steps if s.op.startswith("!")]})
+    return {
+        "evaluations": nh,
+        "steps": ns,
+        "injected_throws_observed": nthrows,
+        "distinct_nontrivial": len(distinct),
+        "rule": "fault enumeration: scenario = (configuration, pre-state, operation, position/count class, spare capacity or not); "
+                "for each, throw index k = 0..(number of throwing-capable events - 1), so every internal throw point is visited; "
+                "distinct = (configuration, operation kind, exception kind, k); non-trivial = the injected event really threw",
+        "samples": samples,
+        "exhaustive": True,
+        "configurations": names,
+    }
